@@ -467,7 +467,7 @@ Notation VamInvA := (VamAcctStep.VamInvA c).
 Inductive reachDA : vam -> option dfrun -> Prop :=
 | reachDA_new nslots v : vam_new c nslots = OK v -> Z.of_nat nslots <= 4194304 -> reachDA v None
 | reachDA_step v run o f v' r calls :
-    reachDA v run -> drun_idle run -> op_ok v o -> op_dom o -> step c v o f = (v', r, calls) -> r <> RPanic -> r <> RStuck ->
+    reachDA v run -> op_avoids run o -> op_ok v o -> op_dom o -> step c v o f = (v', r, calls) -> r <> RPanic -> r <> RStuck ->
     reachDA v' run
 | reachDA_dstep v run o f v' run' r calls dr :
     reachDA v run -> dop_ok v run o -> dstep c v run o f = (v', run', r, calls, dr) -> r <> RPanic -> r <> RStuck ->
@@ -478,7 +478,8 @@ Proof.
   intros R. induction R as [nslots v H Hn|v run o f v' r calls R IH Hidle Hok Hd Hs Hp Hk|v run o f v' run' r calls dr R IH Hok Hs Hp Hk Hb].
   - split; [eapply (vam_new_inv c Hc Hmax Hlarge); eauto|exact I].
   - destruct IH as (HI & Hr). pose proof (step_preservesA c Ha v o f HI Hok Hd) as P. rewrite Hs in P. destruct (P Hp Hk) as (I1 & _).
-    split; [exact I1|]. destruct run as [rn|]; [|exact I]. eapply run_ok_idle_frame; eauto.
+    pose proof (step_frame c Hc v o f (va_s _ _ _ _ HI) Hok) as F. rewrite Hs in F. specialize (F Hp Hk).
+    split; [exact I1|]. destruct run as [rn|]; [|exact I]. eapply run_ok_avoid_frame; eauto.
   - destruct IH as (HI & Hr). pose proof (dstep_preservesA c Hc Hmax Hlarge v run o f HI Hr Hok) as P. rewrite Hs in P.
     destruct (P Hp Hk Hb) as (I1 & R1 & _). auto.
 Qed.
@@ -489,7 +490,7 @@ Proof.
 Qed.
 
 Lemma reachA_reachDA v : reachA c v -> reachDA v None.
-Proof. induction 1; [eapply reachDA_new; eauto|eapply reachDA_step; eauto; exact I]. Qed.
+Proof. induction 1; [eapply reachDA_new; eauto|eapply reachDA_step; eauto; apply idle_avoids; exact I]. Qed.
 
 (* C04: the budget counters equal device truth, also between and after the passes of a defragmentation *)
 Theorem budget_equals_truth_defrag v run :
